@@ -106,6 +106,7 @@ PROFILES = {
     "nestflush": dict(BASE, ntasks=(2, 7), nkinds=(2, 3), bases=(0, 1), nest=True, p_item=0.55, p_task=0.3, p_share=0.1, p_catch=0.3, ncalls=2),
     "cancel": dict(BASE, ntasks=(3, 8), nkinds=(1, 3), bases=(0, 1), p_cancelb=0.35, p_catch=0.5, p_share=0.1, nseg=(2, 4)),
     "kill": dict(BASE, ntasks=(3, 8), p_fail=0.4, p_catch=0.5, p_share=0.15, ctx_types=("async", "override"), p_ctx=0.4, nvars=1, nseg=(2, 4)),
+    "helpers": dict(BASE, ntasks=(3, 9), nleaf=(1, 4), p_task=0.55, p_item=0.35, p_via=0.6, nkinds=(1, 2), p_catch=0.3, p_raise=0.05),
     "everything": dict(BASE, ntasks=(2, 8), nkinds=(1, 3), bases=(0, 1), p_share=0.1, p_reyield=0.05,
                        flush_modes=("ok", "ok", "itemerr", "skip", "raise"), p_raise=0.08, p_errleaf=0.04, p_bad=0.03,
                        p_catch=0.35, p_sync=0.15, ctx_types=("async", "override"), p_ctx=0.35, nvars=1, p_read=0.3),
@@ -335,6 +336,12 @@ class Gen(object):
                 continue
             break
         tasks = [self.tasks[i] for i in range(1, self.next)]
+        if p.get("p_via"):
+            # some children are started through asynq's amap() helper (only plain T-leaf children, named once)
+            named = [x["n"] for tk in tasks for sg in tk["segs"] if sg["term"]["k"] == "yield" for x in _leaves(sg["term"]["s"]) if x["g"] == "T"]
+            for u in set(named):
+                if named.count(u) == 1 and u not in self.sync_targets and "dedup" not in tasks[u - 1] and r.random() < p["p_via"]:
+                    tasks[u - 1]["via"] = "amap"
         kinds = [kind(r.choice(p["bases"]), r.choice(p["flush_modes"])) for _ in range(self.nk)]
         if p.get("nest"):
             # kind 1's flush body calls, synchronously, a task that needs a request of kind 2
